@@ -164,6 +164,11 @@ def run(ctx):
             ru = P.unbound(r)
             if P.is_call(r, 'tracing::Span::current') and ('t', 'conv') in p:
                 continue
+            if P.is_call(r, 'OpenTelemetrySpanExt::context') and ('t', 'conv') in p:
+                # the span's OpenTelemetry context fetched first and converted afterwards: still the current span's
+                rr_ = P.root(P.args_of(r)[0])
+                if rr_ and all(P.is_call(x, 'tracing::Span::current') for x, _ in rr_):
+                    continue
             if ru[0] == 'agg' and path_matches(P._agg_rv(ru)['adt'], 'trace::Context'):
                 eg = F.enclosing_item(F.fns[ru[1]])
                 if eg is not None and eg.impl_of and path_matches(eg.impl_of.get('self_head') or '', 'trace::Context') and eg.argc == 0:
